@@ -33,6 +33,7 @@ contract(f"{FS}:FilesystemIsolation._record_created", sig={"self": "FilesystemIs
 contract(f"{FS}:FilesystemIsolation._get_arg",
          sig={"args": "list[Optional[str]]", "kwargs": "dict[str,Optional[str]]", "index": "Optional[int]"},
          returns="Optional[str]", requires=["implies(index is not None, index >= 0)"],
+         globals_in={"pynguin.utils.fs_isolation.COMMON_KW_NAMES": "list[str]"},
          ensures=["implies(index is None, result is None)",
                   "implies(index is not None and index < len(args), result is args[index])",
                   "implies(index is not None and index >= len(args) and result is not None, "
@@ -271,7 +272,12 @@ def bounded_histories(tier, seed):
 
 
 BOUNDED = [bounded_histories]
-META = {"level": "proof", "rule": "bounded part: one case per history", "assumptions": []}
+META = {"level": "other",
+        "explanation": "bounded contract check of the real FilesystemIsolation over operation histories on a sandbox tree (the "
+                       "statement itself), plus discharged obligations for the bookkeeping helpers; see bounded_parts for the bound",
+        "rule": "bounded part: one case per history (all non-trivial: every history touches the sandbox); obligations: one per "
+                "contract clause/site of the bookkeeping helpers",
+        "assumptions": ["operations outside the patch table (symlink, truncate, link, file descriptors) are not isolated by design"]}
 
 
 def classify(g):
